@@ -496,7 +496,7 @@ fn string_obs(x: &DnaString, regs: &[DnaString]) -> Value {
 }
 
 fn gen_sop(r: &mut Rng, cur_len: usize) -> SOp {
-    let lens = [0usize, 1, 2, 5, 31, 32, 33, 63, 64, 65, 70];
+    let lens = [0usize, 1, 2, 5, 15, 16, 17, 31, 32, 33, 47, 48, 63, 64, 65, 70, 96];
     let alpha: [&[u8]; 3] = [&[0, 1, 2, 3], &[0, 1, 2, 3], &[3]];
     let a = *r.pick(&alpha);
     match r.below(20) {
